@@ -1005,6 +1005,12 @@ func exprPoly(info *types.Info, e ast.Expr, defs map[types.Object]localDef, stop
 			}
 			return inner, true
 		}
+		// encoding/hex.EncodedLen(n) is 2n, whatever n
+		if f := calleeFunc(info, x); f != nil && f.Pkg() != nil && f.Pkg().Path() == "encoding/hex" && f.Name() == "EncodedLen" && len(x.Args) == 1 {
+			if inner, ok := exprPoly(info, x.Args[0], defs, stop, depth+1); ok {
+				return polyMul(inner, polyConst(2)), true
+			}
+		}
 		if id, ok := x.Fun.(*ast.Ident); ok && id.Name == "len" && len(x.Args) == 1 {
 			if polyAbstract {
 				return polyAtom("len(" + absName(info, x.Args[0]) + ")"), true
